@@ -1439,6 +1439,11 @@ fire("c19-to-data-sizes-from-unpermuted-array", "C19", TENSOR,
 fire("c19-to-data-sizes-paired-with-unsorted-dims", "C19", TENSOR,
      "        for dim, size in zip(dims, data.shape):\n", "        for dim, size in zip(unsorted_dims, data.shape):\n", "R19.9", "tensor_to_data")
 
+fire("c10-lagged-short-sequence-starts-one-step-early", "C10", SUMPROD,
+     "            result = trans(**{time: remaining_duration - 1})\n            remaining_duration -= 1\n", "            remaining_duration -= 1\n            result = trans(**{time: remaining_duration - 1})\n", "R10.4", "sarkka_bilmes_product")
+silent("c10-s-lagged-short-sequence-decrement-first-adjusted", "C10", SUMPROD,
+       "            result = trans(**{time: remaining_duration - 1})\n            remaining_duration -= 1\n", "            remaining_duration -= 1\n            result = trans(**{time: remaining_duration})\n")
+
 # ===== derived variants: must stay at the END of this file (they enumerate every rename() variant above) =====
 # `if c: A else: B` -> `if not c: B else: A` in the anchor functions (behaviour-preserving)
 def invert(prop, file, qual):
